@@ -8,6 +8,7 @@ import (
 	"path/filepath"
 	"regexp"
 	"sort"
+	"strconv"
 	"strings"
 
 	"github.com/np-guard/netpol-analyzer/pkg/netpol/connlist"
@@ -209,7 +210,18 @@ func execWorldCase(c *Sx, env *execEnv) (*Sx, []Violation) {
 		return out.Add(At("bad-world")), nil
 	}
 	dir := caseDir(env, args[0].A)
-	if err := w.WriteDir(dir, nil, nil); err != nil {
+	// every second case keeps its policies in a file of their own, below the top directory (the analysis reads the whole tree)
+	var assign []int
+	if id, e := strconv.Atoi(args[0].A); e == nil && id%2 == 1 {
+		for _, o := range w.Objs {
+			if o.Kind == "np" || o.Kind == "anp" || o.Kind == "banp" {
+				assign = append(assign, 1)
+			} else {
+				assign = append(assign, 0)
+			}
+		}
+	}
+	if err := w.WriteDir(dir, assign, nil); err != nil {
 		return out.Add(At("io-error")), nil
 	}
 	var viols []Violation
